@@ -1,8 +1,9 @@
 //@unit sm2_key
 //@serves C03 C04 C05 C06 C14 C19 C20
+//@safety-pred sign_term_ok
 //@source gm-sm2/src/key.rs
 //@assume shim_concat2(a, b) == a ++ b; shim_ne_bytes / shim_u256_eq are (in)equality of byte strings / limb arrays (external_body shims whose body is the replaced std expression)
-//@assume rand::thread_rng().fill_bytes yields CSPRNG bytes: random_u256 is the only source of `csprng` facts (provenance predicate); the rejection loops terminate with probability 1 (exec_allows_no_decreases_clause)
+//@assume rand::thread_rng().fill_bytes yields CSPRNG bytes: random_u256 is the only source of `csprng` facts (provenance predicate); the rejection loops terminate with probability 1 (exec_allows_no_decreases_clause) - for sign_raw provided sign_term_ok(d), i.e. d != n-1, which every constructor (new, gen_keypair) is proved to establish
 //@assume G has prime order n (ax_g_order): [k]G is the point at infinity iff n | k
 //@rewrite-text [digest.to_vec(), msg.to_vec()].concat() ==> shim_concat2(digest.to_vec(), msg.to_vec())
 //@rewrite-text id.unwrap_or_else(|| DEFAULT_ID) ==> shim_id_or_default(id)
@@ -164,6 +165,11 @@ spec fn enc_from_nonce(k: int, pa: Pt, m: Seq<u8>, compressed: bool, model: Sm2M
 // invariants the constructors establish
 spec fn s_id(id: Option<&'static str>) -> Seq<u8> { str_bytes(id_or_default(id)) }
 spec fn pk_ok(k: Sm2PublicKey) -> bool { valid(k.point) && val4(k.point.z@) != 0 }
+// the rejection loop of sign_raw can only exit if (1 + d) is invertible mod n: for d = n - 1 every candidate s is 0 and the loop
+// never ends. Constructors establish it; C20 counts this clause (//@safety-pred)
+pub open spec fn sign_term_ok(d: int) -> bool { (1 + d) % N() != 0 }
+proof fn lemma_sign_term_ok(d: int) requires 1 <= d <= N() - 2 ensures sign_term_ok(d)
+{ lemma_params(); lemma_small_mod((1 + d) as nat, N() as nat); }
 spec fn sk_ok(k: Sm2PrivateKey) -> bool { 1 <= val4(k.d@) <= N() - 2 && pk_ok(k.public_key) && abs(k.public_key.point) == g_smul(val4(k.d@), G()) }
 //@section code gm-sm2/src/key.rs
 enum Sm2Model {
@@ -363,6 +369,7 @@ impl Sm2PrivateKey {
     fn new(sk: &[u8]) -> (res: Sm2Result<Self>)
         ensures res is Ok ==> sk@.len() == 32 && sk_ok(res->Ok_0) && val4(res->Ok_0.d@) == be_val(sk@),
             (sk@.len() != 32 || be_val(sk@) == 0 || be_val(sk@) > N() - 2) ==> res is Err,
+            res is Ok ==> sign_term_ok(val4(res->Ok_0.d@)),
     {
         if sk.len() != 32 {
             return Err(Sm2Error::InvalidFieldLen);
@@ -375,6 +382,7 @@ impl Sm2PrivateKey {
         }
         let public_key = public_from_private(&d)?;
         let private_key = Self { d, public_key };
+        proof { lemma_sign_term_ok(val4(d@)); }
         Ok(private_key)
     }
 
@@ -542,11 +550,21 @@ impl Sm2PrivateKey {
 
 }
 
+#[verifier::exec_allows_no_decreases_clause]
 fn gen_keypair() -> (res: Sm2Result<(Sm2PublicKey, Sm2PrivateKey)>)
     ensures res is Ok ==> pk_ok(res->Ok_0.0) && res->Ok_0.1.public_key == res->Ok_0.0 && csprng(res->Ok_0.1.d@)
-        && 1 <= val4(res->Ok_0.1.d@) < N() && abs(res->Ok_0.0.point) == g_smul(val4(res->Ok_0.1.d@), G()),
+        && 1 <= val4(res->Ok_0.1.d@) <= N() - 2 && abs(res->Ok_0.0.point) == g_smul(val4(res->Ok_0.1.d@), G()),
+        res is Ok ==> sk_ok(res->Ok_0.1),
+        res is Ok ==> sign_term_ok(val4(res->Ok_0.1.d@)),
 {
-    let d = random_u256();
+    proof { lemma_key_consts(); }
+    let mut d = random_u256();
+    while u256_cmp(&d, &SM2_N_MINUS_TWO) > 0
+        invariant 1 <= val4(d@) < N(), csprng(d@), val4(SM2_N_MINUS_TWO@) == N() - 2,
+    {
+        d = random_u256();
+    }
+    proof { lemma_sign_term_ok(val4(d@)); }
     let pk = public_from_private(&d)?;
     let sk = Sm2PrivateKey { d, public_key: pk };
     Ok((pk, sk))
